@@ -63,7 +63,7 @@ class SEL(generic.Desc):
 
     def probes(self, prop):
         return [(p, mc_cfg(level=9, inv=[p], props=[])) for p in ("Probe_StringWins", "Probe_NoneSelected", "Probe_SecondPeriodOtherMode",
-                                                                           "Probe_DisabledMidRun")]
+                                                                           "Probe_DisabledMidRun", "Probe_EndWhileEnabled")]
 
     def sim_run(self, prop, tier, sd):
         depth = 30 if tier == "quick" else 80
@@ -87,7 +87,7 @@ class SEL(generic.Desc):
 
     def required_tags(self, prop):
         return {"on_enable", "on_iteration", "on_disable", "string_wins", "none_selected", "chooser_selection", "periodic_idle",
-                "run", "run_goes_on_after_disable"}
+                "run", "run_goes_on_after_disable", "end_while_enabled"}
 
 
 def check(prop, tier):
